@@ -33,7 +33,7 @@ def one(sid):
             rc, log = sh(["git", "apply", pd], cwd=wt)
             if rc != 0:
                 return sid, {"error": "patch does not apply: " + log[-300:]}
-        for pid in PIDS:
+        for pid in ([sid.split("_")[0]] if os.environ.get("MATRIX_OWN") and re.match(r"^C\d\d_", sid) else PIDS):
             rc, log = sh(["python3", os.path.join(V, "tools/check.py"), pid, "--tier", "quick"], cwd=V,
                          env={"VERIF_REPO": wt, "VERIF_OUT": out})
             v = [l for l in log.splitlines() if l.startswith("VIOLATION")]
@@ -58,7 +58,7 @@ def one(sid):
 
 def main():
     ids = sys.argv[1:] or (["BASE"] + sorted(d for d in os.listdir(os.path.join(V, "seeded")) if os.path.isdir(os.path.join(V, "seeded", d))))
-    path = os.path.join(V, "seeded", "MATRIX.json") if not os.environ.get("MATRIX_PIDS") else "/tmp/MATRIX_partial.json"
+    path = os.path.join(V, "seeded", "MATRIX.json") if not (os.environ.get("MATRIX_PIDS") or os.environ.get("MATRIX_OWN")) else "/tmp/MATRIX_partial.json"
     M = json.load(open(path)) if os.path.exists(path) else {}
     with ThreadPoolExecutor(max_workers=int(os.environ.get("MATRIX_WORKERS", "5"))) as ex:
         for sid, res in ex.map(one, ids):
